@@ -261,6 +261,8 @@ def run(ctx):
             efs = dp.edge_facts(bid, i)
             if any(p_ is False and is_found_in_ins(a) for k, p_, a in efs):
                 n_found += 1
+                if dep_pol_facts(dp.facts_at_block(bid), True) or dep_pol_facts({k: (p_, a) for k, p_, a in efs}, True):
+                    continue        # this test is made in dependency position: nothing to poison
 
                 def edge_ok(b2, i2, s3):
                     for k2, p2, a2 in dp.edge_facts(b2, i2):
